@@ -3,25 +3,50 @@
 From PV Require Import C11.Spec C11.Lib C11.ProofsTables C11.ProofsAddr C11.ProofsLines C11.ProofsOwners.
 
 (* ------------------------------------------------------------ retrieve = the reference tables *)
-Lemma protos_rows_app v le files lk filt a b :
-  protos_rows v le files lk filt (a ++ b)
-  = do x <- protos_rows v le files lk filt a; do y <- protos_rows v le files lk filt b; Val (x ++ y).
+Lemma filter_all {A} (f : A -> bool) l : (forall x, In x l -> f x = true) -> filter f l = l.
+Proof.
+  induction l as [|x l IH]; intros H; [reflexivity|]. cbn [filter]. rewrite (H x (or_introl eq_refl)).
+  f_equal. apply IH. intros y Hy. apply H. now right.
+Qed.
+
+Lemma protos_rows_app v le o files lk filt a b :
+  protos_rows v le o files lk filt (a ++ b)
+  = do x <- protos_rows v le o files lk filt a; do y <- protos_rows v le o files lk filt b; Val (x ++ y).
 Proof.
   induction a as [|p a IH].
-  - cbn [app protos_rows obind]. destruct (protos_rows v le files lk filt b); reflexivity.
+  - cbn [app protos_rows obind]. destruct (protos_rows v le o files lk filt b); reflexivity.
   - cbn [app protos_rows]. rewrite IH.
-    destruct (proto_rows v le files lk filt p) as [r| |]; cbn [obind]; try reflexivity.
-    destruct (protos_rows v le files lk filt a) as [ra| |]; cbn [obind]; try reflexivity.
-    destruct (protos_rows v le files lk filt b) as [rb| |]; cbn [obind]; try reflexivity.
+    destruct (proto_rows v le o files lk filt p) as [r| |]; cbn [obind]; try reflexivity.
+    destruct (protos_rows v le o files lk filt a) as [ra| |]; cbn [obind]; try reflexivity.
+    destruct (protos_rows v le o files lk filt b) as [rb| |]; cbn [obind]; try reflexivity.
     now rewrite app_assoc.
 Qed.
 
-Lemma protos_rows_on v le files lk filt (b : bool) p R :
-  (b = true -> proto_rows v le files lk filt p = Val R) ->
-  protos_rows v le files lk filt (on b [p]) = Val (on b R).
+Lemma protos_rows_on v le o files lk filt (b : bool) p R :
+  (b = true -> proto_rows v le o files lk filt p = Val R) ->
+  protos_rows v le o files lk filt (on b [p]) = Val (on b R).
 Proof.
   destruct b; cbn [on]; intros H; [|reflexivity].
   cbn [protos_rows]. rewrite H by reflexivity. cbn [obind]. now rewrite app_nil_r.
+Qed.
+
+(* the access log follows the rows: as long as every table parses, every table of the list is opened *)
+Lemma protos_log_app v le o files lk filt a b ra :
+  protos_rows v le o files lk filt a = Val ra ->
+  protos_log v le o files lk filt (a ++ b) = protos_log v le o files lk filt a ++ protos_log v le o files lk filt b.
+Proof.
+  revert ra. induction a as [|p a IH]; intros ra H; [reflexivity|].
+  cbn [app protos_log protos_rows] in *.
+  destruct (proto_rows v le o files lk filt p) as [r| |]; cbn [obind] in H; try discriminate.
+  destruct (protos_rows v le o files lk filt a) as [ra'| |]; cbn [obind] in H; try discriminate.
+  rewrite (IH ra' eq_refl). now rewrite app_assoc.
+Qed.
+Lemma protos_log_on v le o files lk filt (b : bool) p R :
+  (b = true -> proto_rows v le o files lk filt p = Val R) ->
+  protos_log v le o files lk filt (on b [p]) = on b (proto_log files p).
+Proof.
+  destruct b; cbn [on]; intros H; [|reflexivity].
+  cbn [protos_log]. rewrite H by reflexivity. now rewrite app_nil_r.
 Qed.
 
 Definition p_tcp4 : proto := (bs "tcp", 2, Some 1).
@@ -75,57 +100,157 @@ Proof.
   split; [exact H3|]. split; [intros l E; rewrite E in H4; exact H4|]. exact H5.
 Qed.
 
-Lemma retrieve_ok v le st kind lk filt :
-  lk_ok lk -> wf_state st = true -> files_text_safe le st = true -> In kind kinds ->
-  (covers_unix kind = true -> v_exact v = true \/ no_lead_ws st = true) ->
-  retrieve v le (k_files le st) kind lk filt
-  = Val (on (spec_admits kind 2 1) (R_inet lk filt 2 1 (k_tcp4 st))
-         ++ on (spec_admits kind 10 1) (R_inet lk filt 10 1 (opt_list (k_tcp6 st)))
-         ++ on (spec_admits kind 2 2) (R_inet lk filt 2 2 (k_udp4 st))
-         ++ on (spec_admits kind 10 2) (R_inet lk filt 10 2 (opt_list (k_udp6 st)))
-         ++ on (spec_admits kind 1 1) (R_unix lk filt (k_unix st))).
+(* which sockets of a table are shown on a host described by the oracle *)
+Lemma shown_v4 o l : shown o false l = l.
+Proof. unfold shown. apply filter_all. intros x _. reflexivity. Qed.
+Lemma shown_ok o v6 l : o_ntop6 o = true -> shown o v6 l = l.
 Proof.
-  intros Hlk Hwf Hsafe Hk Hux.
-  apply wf_state_parts in Hwf as (W4 & S4 & W6 & S6 & U4 & U6 & WU & _).
-  apply files_text_safe_parts in Hsafe as (T4 & T6 & TU4 & TU6 & TX).
-  unfold retrieve. rewrite kind_table_tmap by exact Hk. cbn [of_option obind].
-  rewrite filter_all5. rewrite !protos_rows_app.
-  rewrite (protos_rows_on v le _ lk filt _ p_tcp4 (R_inet lk filt 2 1 (k_tcp4 st))).
-  2:{ intros _. unfold proto_rows, p_tcp4. cbv beta iota.
-      change ((2 =? AF_INET) || (2 =? AF_INET6)) with true. cbv iota.
-      change (k_files le st (bs "tcp")) with (Some (k_ifile le hdr_tcp (k_tcp4 st))).
-      exact (process_inet_ok le false 1 lk filt hdr_tcp (k_tcp4 st) _ Hlk eq_refl W4
-               (or_introl (conj eq_refl S4)) T4). }
-  rewrite (protos_rows_on v le _ lk filt _ p_tcp6 (R_inet lk filt 10 1 (opt_list (k_tcp6 st)))).
-  2:{ intros _. unfold proto_rows, p_tcp6. cbv beta iota.
-      change ((10 =? AF_INET) || (10 =? AF_INET6)) with true. cbv iota.
-      change (k_files le st (bs "tcp6")) with (option_map (k_ifile le hdr_tcp6) (k_tcp6 st)).
-      destruct (k_tcp6 st) as [l|] eqn:E6; cbn [option_map opt_list] in *.
-      - exact (process_inet_ok le true 1 lk filt hdr_tcp6 l _ Hlk eq_refl W6
-                 (or_introl (conj eq_refl S6)) (T6 l eq_refl)).
-      - reflexivity. }
-  rewrite (protos_rows_on v le _ lk filt _ p_udp4 (R_inet lk filt 2 2 (k_udp4 st))).
-  2:{ intros _. unfold proto_rows, p_udp4. cbv beta iota.
-      change ((2 =? AF_INET) || (2 =? AF_INET6)) with true. cbv iota.
-      change (k_files le st (bs "udp")) with (Some (k_ifile le hdr_udp (k_udp4 st))).
-      exact (process_inet_ok le false 2 lk filt hdr_udp (k_udp4 st) _ Hlk eq_refl U4 (or_intror eq_refl) TU4). }
-  rewrite (protos_rows_on v le _ lk filt _ p_udp6 (R_inet lk filt 10 2 (opt_list (k_udp6 st)))).
-  2:{ intros _. unfold proto_rows, p_udp6. cbv beta iota.
-      change ((10 =? AF_INET) || (10 =? AF_INET6)) with true. cbv iota.
-      change (k_files le st (bs "udp6")) with (option_map (k_ifile le hdr_udp6) (k_udp6 st)).
-      destruct (k_udp6 st) as [l|] eqn:E6; cbn [option_map opt_list] in *.
-      - exact (process_inet_ok le true 2 lk filt hdr_udp6 l _ Hlk eq_refl U6 (or_intror eq_refl) (TU6 l eq_refl)).
-      - reflexivity. }
-  rewrite (protos_rows_on v le _ lk filt _ p_unix (R_unix lk filt (k_unix st))).
-  2:{ intros Hb. unfold proto_rows, p_unix. cbv beta iota.
-      change ((1 =? AF_INET) || (1 =? AF_INET6)) with false. cbv iota.
-      change (k_files le st (bs "unix")) with (Some (k_ufile (k_unix st))).
-      apply process_unix_ok; [exact WU| |exact TX].
-      unfold no_lead_ws in Hux. apply Hux. exact Hb. }
-  cbn [obind]. reflexivity.
+  intros H. unfold shown. apply filter_all. intros x _. unfold hidden6. rewrite H.
+  now rewrite andb_false_r.
+Qed.
+Lemma shown_v6_no o l : o_ntop6 o = false -> shown o true l = filter ports_zero l.
+Proof.
+  intros H. unfold shown. apply filter_ext. intros s. unfold hidden6. rewrite H. cbn [negb andb].
+  apply negb_involutive.
 Qed.
 
-(* ------------------------------------------------------------ rows vs demanded entries *)
+Lemma restrict6_parts o st :
+  k_tcp4 (restrict6 o st) = k_tcp4 st
+  /\ opt_list (k_tcp6 (restrict6 o st)) = shown o true (opt_list (k_tcp6 st))
+  /\ k_udp4 (restrict6 o st) = k_udp4 st
+  /\ opt_list (k_udp6 (restrict6 o st)) = shown o true (opt_list (k_udp6 st))
+  /\ k_unix (restrict6 o st) = k_unix st /\ k_procs (restrict6 o st) = k_procs st.
+Proof.
+  unfold restrict6. destruct (o_ntop6 o) eqn:E.
+  - rewrite !shown_ok by exact E. repeat split; reflexivity.
+  - rewrite !shown_v6_no by exact E. cbn [k_tcp4 k_tcp6 k_udp4 k_udp6 k_unix k_procs].
+    repeat split; try reflexivity.
+    + now destruct (k_tcp6 st).
+    + now destruct (k_udp6 st).
+Qed.
+
+Definition no_v6_failure (o : ipv6_oracle) : Prop := o_ntop6 o = true \/ o_supported o = false.
+Lemma no_v6_failure_v6 o : no_v6_failure o -> no_v6_error o true.
+Proof. intros [H|H]; [left; exact H|right; right; exact H]. Qed.
+Lemma no_v6_error_v4 o : no_v6_error o false.
+Proof. right. left. reflexivity. Qed.
+
+Section Protos.
+  Variables (v : variant) (le : bool) (o : ipv6_oracle) (st : kstate) (lk : imap) (filt : option Z).
+  Hypothesis Hlk : lk_ok lk.
+  Hypothesis Hwf : wf_state st = true.
+  Hypothesis Hsafe : files_text_safe le st = true.
+  Hypothesis Ho : no_v6_failure o.
+
+  Lemma P_tcp4 : proto_rows v le o (k_files le st) lk filt p_tcp4 = Val (R_inet lk filt 2 1 (k_tcp4 st)).
+  Proof.
+    apply wf_state_parts in Hwf as (W4 & S4 & _). apply files_text_safe_parts in Hsafe as (T4 & _).
+    unfold proto_rows, p_tcp4. cbv beta iota.
+    change ((2 =? AF_INET) || (2 =? AF_INET6)) with true. cbv iota.
+    change (k_files le st (bs "tcp")) with (Some (k_ifile le hdr_tcp (k_tcp4 st))).
+    rewrite <- (shown_v4 o (k_tcp4 st)) at 2.
+    exact (process_inet_ok le o false 1 lk filt hdr_tcp (k_tcp4 st) _ Hlk eq_refl W4
+             (or_introl (conj eq_refl S4)) (no_v6_error_v4 o) T4).
+  Qed.
+  Lemma P_udp4 : proto_rows v le o (k_files le st) lk filt p_udp4 = Val (R_inet lk filt 2 2 (k_udp4 st)).
+  Proof.
+    apply wf_state_parts in Hwf as (_ & _ & _ & _ & U4 & _). apply files_text_safe_parts in Hsafe as (_ & _ & TU4 & _).
+    unfold proto_rows, p_udp4. cbv beta iota.
+    change ((2 =? AF_INET) || (2 =? AF_INET6)) with true. cbv iota.
+    change (k_files le st (bs "udp")) with (Some (k_ifile le hdr_udp (k_udp4 st))).
+    rewrite <- (shown_v4 o (k_udp4 st)) at 2.
+    exact (process_inet_ok le o false 2 lk filt hdr_udp (k_udp4 st) _ Hlk eq_refl U4 (or_intror eq_refl)
+             (no_v6_error_v4 o) TU4).
+  Qed.
+  Lemma P_tcp6 : proto_rows v le o (k_files le st) lk filt p_tcp6
+                 = Val (R_inet lk filt 10 1 (shown o true (opt_list (k_tcp6 st)))).
+  Proof.
+    apply wf_state_parts in Hwf as (_ & _ & W6 & S6 & _). apply files_text_safe_parts in Hsafe as (_ & T6 & _).
+    unfold proto_rows, p_tcp6. cbv beta iota.
+    change ((10 =? AF_INET) || (10 =? AF_INET6)) with true. cbv iota.
+    change (k_files le st (bs "tcp6")) with (option_map (k_ifile le hdr_tcp6) (k_tcp6 st)).
+    destruct (k_tcp6 st) as [l|] eqn:E6; cbn [option_map opt_list] in *.
+    - exact (process_inet_ok le o true 1 lk filt hdr_tcp6 l _ Hlk eq_refl W6
+               (or_introl (conj eq_refl S6)) (no_v6_failure_v6 o Ho) (T6 l eq_refl)).
+    - reflexivity.
+  Qed.
+  Lemma P_udp6 : proto_rows v le o (k_files le st) lk filt p_udp6
+                 = Val (R_inet lk filt 10 2 (shown o true (opt_list (k_udp6 st)))).
+  Proof.
+    apply wf_state_parts in Hwf as (_ & _ & _ & _ & _ & U6 & _).
+    apply files_text_safe_parts in Hsafe as (_ & _ & _ & TU6 & _).
+    unfold proto_rows, p_udp6. cbv beta iota.
+    change ((10 =? AF_INET) || (10 =? AF_INET6)) with true. cbv iota.
+    change (k_files le st (bs "udp6")) with (option_map (k_ifile le hdr_udp6) (k_udp6 st)).
+    destruct (k_udp6 st) as [l|] eqn:E6; cbn [option_map opt_list] in *.
+    - exact (process_inet_ok le o true 2 lk filt hdr_udp6 l _ Hlk eq_refl U6 (or_intror eq_refl)
+               (no_v6_failure_v6 o Ho) (TU6 l eq_refl)).
+    - reflexivity.
+  Qed.
+  Lemma P_unix : v_exact v = true \/ no_lead_ws st = true ->
+    proto_rows v le o (k_files le st) lk filt p_unix = Val (R_unix lk filt (k_unix st)).
+  Proof.
+    intros Hux.
+    apply wf_state_parts in Hwf as (_ & _ & _ & _ & _ & _ & WU & _).
+    apply files_text_safe_parts in Hsafe as (_ & _ & _ & _ & TX).
+    unfold proto_rows, p_unix. cbv beta iota.
+    change ((1 =? AF_INET) || (1 =? AF_INET6)) with false. cbv iota.
+    change (k_files le st (bs "unix")) with (Some (k_ufile (k_unix st))).
+    apply process_unix_ok; [exact WU|exact Hux|exact TX].
+  Qed.
+
+  Lemma retrieve_ok kind :
+    In kind kinds -> (covers_unix kind = true -> v_exact v = true \/ no_lead_ws st = true) ->
+    retrieve v le o (k_files le st) kind lk filt
+    = Val (on (spec_admits kind 2 1) (R_inet lk filt 2 1 (k_tcp4 st))
+           ++ on (spec_admits kind 10 1) (R_inet lk filt 10 1 (shown o true (opt_list (k_tcp6 st))))
+           ++ on (spec_admits kind 2 2) (R_inet lk filt 2 2 (k_udp4 st))
+           ++ on (spec_admits kind 10 2) (R_inet lk filt 10 2 (shown o true (opt_list (k_udp6 st))))
+           ++ on (spec_admits kind 1 1) (R_unix lk filt (k_unix st)))
+    /\ retrieve_log v le o (k_files le st) kind lk filt = spec_log kind st.
+  Proof.
+    intros Hk Hux.
+    assert (R1 := protos_rows_on v le o (k_files le st) lk filt (proto_admitted kind p_tcp4) p_tcp4 _ (fun _ => P_tcp4)).
+    assert (R2 := protos_rows_on v le o (k_files le st) lk filt (proto_admitted kind p_tcp6) p_tcp6 _ (fun _ => P_tcp6)).
+    assert (R3 := protos_rows_on v le o (k_files le st) lk filt (proto_admitted kind p_udp4) p_udp4 _ (fun _ => P_udp4)).
+    assert (R4 := protos_rows_on v le o (k_files le st) lk filt (proto_admitted kind p_udp6) p_udp6 _ (fun _ => P_udp6)).
+    assert (R5 := protos_rows_on v le o (k_files le st) lk filt (proto_admitted kind p_unix) p_unix _
+                    (fun Hb => P_unix (Hux Hb))).
+    assert (L1 := protos_log_on v le o (k_files le st) lk filt (proto_admitted kind p_tcp4) p_tcp4 _ (fun _ => P_tcp4)).
+    assert (L2 := protos_log_on v le o (k_files le st) lk filt (proto_admitted kind p_tcp6) p_tcp6 _ (fun _ => P_tcp6)).
+    assert (L3 := protos_log_on v le o (k_files le st) lk filt (proto_admitted kind p_udp4) p_udp4 _ (fun _ => P_udp4)).
+    assert (L4 := protos_log_on v le o (k_files le st) lk filt (proto_admitted kind p_udp6) p_udp6 _ (fun _ => P_udp6)).
+    assert (L5 := protos_log_on v le o (k_files le st) lk filt (proto_admitted kind p_unix) p_unix _
+                    (fun Hb => P_unix (Hux Hb))).
+    split.
+    - unfold retrieve. rewrite kind_table_tmap by exact Hk. cbn [of_option obind].
+      rewrite filter_all5. rewrite !protos_rows_app. rewrite R1, R2, R3, R4, R5. cbn [obind]. reflexivity.
+    - unfold retrieve_log. rewrite kind_table_tmap by exact Hk. rewrite filter_all5.
+      rewrite (protos_log_app _ _ _ _ _ _ _ _ _ R1), (protos_log_app _ _ _ _ _ _ _ _ _ R2),
+              (protos_log_app _ _ _ _ _ _ _ _ _ R3), (protos_log_app _ _ _ _ _ _ _ _ _ R4).
+      rewrite L1, L2, L3, L4, L5. unfold spec_log.
+      change (proto_admitted kind p_tcp4) with (spec_admits kind 2 1).
+      change (proto_admitted kind p_tcp6) with (spec_admits kind 10 1).
+      change (proto_admitted kind p_udp4) with (spec_admits kind 2 2).
+      change (proto_admitted kind p_udp6) with (spec_admits kind 10 2).
+      change (proto_admitted kind p_unix) with (spec_admits kind 1 1).
+      change (proto_log (k_files le st) p_tcp4) with [bs "tcp"].
+      change (proto_log (k_files le st) p_udp4) with [bs "udp"].
+      change (proto_log (k_files le st) p_unix) with [bs "unix"].
+      assert (E6 : proto_log (k_files le st) p_tcp6 = match k_tcp6 st with Some _ => [bs "tcp6"] | None => [] end).
+      { unfold proto_log, p_tcp6. cbv beta iota.
+        change ((10 =? AF_INET) || (10 =? AF_INET6)) with true. cbv iota.
+        change (k_files le st (bs "tcp6")) with (option_map (k_ifile le hdr_tcp6) (k_tcp6 st)).
+        now destruct (k_tcp6 st). }
+      assert (E7 : proto_log (k_files le st) p_udp6 = match k_udp6 st with Some _ => [bs "udp6"] | None => [] end).
+      { unfold proto_log, p_udp6. cbv beta iota.
+        change ((10 =? AF_INET) || (10 =? AF_INET6)) with true. cbv iota.
+        change (k_files le st (bs "udp6")) with (option_map (k_ifile le hdr_udp6) (k_udp6 st)).
+        now destruct (k_udp6 st). }
+      rewrite E6, E7. reflexivity.
+  Qed.
+End Protos.
+
 Lemma Forall2_on (b : bool) R X :
   (b = true -> Forall2 row_ok R X) -> Forall2 row_ok (on b R) (on b X).
 Proof. destruct b; cbn [on]; intros H; [now apply H|constructor]. Qed.
@@ -146,11 +271,6 @@ Proof.
   cbn [map]. constructor; [apply H; now left|]. apply IH. intros y Hy. apply H. now right.
 Qed.
 
-Lemma filter_all {A} (f : A -> bool) l : (forall x, In x l -> f x = true) -> filter f l = l.
-Proof.
-  induction l as [|x l IH]; intros H; [reflexivity|]. cbn [filter]. rewrite (H x (or_introl eq_refl)).
-  f_equal. apply IH. intros y Hy. apply H. now right.
-Qed.
 
 (* system-wide, TCP/UDP tables *)
 Lemma sys_inet_rows v ps fam ty socks :
@@ -249,22 +369,62 @@ Proof.
 Qed.
 
 (* ------------------------------------------------------------ the theorems *)
-Theorem system_wide v le st kind :
-  wf_state st = true -> files_text_safe le st = true -> In kind kinds ->
+(* ------------------------------------------------------------ the set *)
+Lemma as_set_nodup l : NoDup (as_set l).
+Proof. apply NoDup_nodup. Qed.
+Lemma as_set_in l r : In r (as_set l) <-> In r l.
+Proof. apply nodup_In. Qed.
+
+(* T6: whatever the files and descriptor tables hold, a returned list has no duplicate and holds exactly
+   the rows that were add()ed *)
+Theorem result_duplicate_free v le o files procs kind rows :
+  net_connections v le o files procs kind = Val rows ->
+  NoDup rows /\ exists adds, net_connections_adds v le o files procs kind = Val adds
+                             /\ forall r, In r rows <-> In r adds.
+Proof.
+  unfold net_connections, omap, obind.
+  destruct (net_connections_adds v le o files procs kind) as [adds| |]; try discriminate.
+  intros H. inversion H; subst. split; [apply as_set_nodup|].
+  exists adds. split; [reflexivity|]. intros r. apply as_set_in.
+Qed.
+Theorem proc_result_duplicate_free v le o files pid ls kind rows :
+  proc_net_connections v le o files pid ls kind = Val rows ->
+  NoDup rows /\ exists adds, proc_net_connections_adds v le o files pid ls kind = Val adds
+                             /\ forall r, In r rows <-> In r adds.
+Proof.
+  unfold proc_net_connections, omap, obind.
+  destruct (proc_net_connections_adds v le o files pid ls kind) as [adds| |]; try discriminate.
+  intros H. inversion H; subst. split; [apply as_set_nodup|].
+  exists adds. split; [reflexivity|]. intros r. apply as_set_in.
+Qed.
+
+(* ------------------------------------------------------------ the theorems *)
+Theorem system_wide v le o st kind :
+  wf_state st = true -> files_text_safe le st = true -> In kind kinds -> no_v6_failure o ->
   (covers_unix kind = true -> (v_merge v = true \/ unix_unshared st = true)
                               /\ (v_exact v = true \/ no_lead_ws st = true)) ->
-  exists rows, net_connections v le (k_files le st) (to_procs (k_procs st)) kind = Val rows
-               /\ Forall2 row_ok rows (spec_sys kind st).
+  exists adds, net_connections_adds v le o (k_files le st) (to_procs (k_procs st)) kind = Val adds
+               /\ Forall2 row_ok adds (spec_sys kind (restrict6 o st))
+               /\ net_connections v le o (k_files le st) (to_procs (k_procs st)) kind = Val (as_set adds)
+               /\ net_log v le o (k_files le st) (to_procs (k_procs st)) kind = spec_log kind st.
 Proof.
-  intros Hwf Hsafe Hk Hux.
+  intros Hwf Hsafe Hk Ho Hux.
   pose proof (wf_state_parts st Hwf) as (_ & _ & _ & _ & _ & _ & _ & WP).
-  unfold net_connections. rewrite check_kind_good by exact Hk. cbn [obind].
-  rewrite get_all_inodes_ok by exact WP. cbn [obind].
-  rewrite (retrieve_ok v le st kind _ None (lookup_v_lk_ok v _) Hwf Hsafe Hk) by (intros H; now apply Hux).
-  eexists. split; [reflexivity|].
-  unfold spec_sys, spec_entries, spec_entries2. rewrite (unix_entries_on _ kind _ Hk).
-  repeat apply Forall2_app; apply Forall2_on; intros Hb; try apply sys_inet_rows.
-  apply sys_unix_rows. destruct (Hux Hb) as [Hs _]. exact Hs.
+  destruct (retrieve_ok v le o st (lookup_v v (dicts (k_procs st))) None (lookup_v_lk_ok v _) Hwf Hsafe Ho kind Hk)
+    as [HR HL]; [intros H; now apply Hux|].
+  assert (HA : net_connections_adds v le o (k_files le st) (to_procs (k_procs st)) kind
+               = retrieve v le o (k_files le st) kind (lookup_v v (dicts (k_procs st))) None).
+  { unfold net_connections_adds. rewrite check_kind_good by exact Hk. cbn [obind].
+    rewrite get_all_inodes_ok by exact WP. reflexivity. }
+  rewrite HR in HA.
+  eexists. split; [exact HA|]. split; [|split].
+  - destruct (restrict6_parts o st) as (E1 & E2 & E3 & E4 & E5 & E6).
+    unfold spec_sys, spec_entries, spec_entries2. rewrite E1, E2, E3, E4, E5, E6.
+    rewrite (unix_entries_on _ kind _ Hk).
+    repeat apply Forall2_app; apply Forall2_on; intros Hb; try apply sys_inet_rows.
+    apply sys_unix_rows. destruct (Hux Hb) as [Hs _]. exact Hs.
+  - unfold net_connections. rewrite HA. reflexivity.
+  - unfold net_log. rewrite check_kind_good by exact Hk. rewrite get_all_inodes_ok by exact WP. exact HL.
 Qed.
 
 Lemma spec_entries_nil own kind st :
@@ -283,25 +443,72 @@ Proof.
     reflexivity.
 Qed.
 
-Theorem per_process v le st p kind :
-  wf_state st = true -> files_text_safe le st = true -> wf_kproc p = true -> p_visible p = true ->
-  In kind kinds -> (covers_unix kind = true -> v_exact v = true \/ no_lead_ws st = true) ->
-  exists rows, proc_net_connections v le (k_files le st) (p_pid p) (to_listing p) kind = Val rows
-               /\ Forall2 row_ok rows (spec_proc p kind st).
+(* a process that holds no socket: [] at once, whatever the tables hold -- no table file is read *)
+Theorem proc_no_sockets v le o files pid ents kind :
+  get_proc_inodes pid ents = Val [] -> In kind kinds ->
+  proc_net_connections_adds v le o files pid (LsOk ents) kind = Val []
+  /\ proc_net_connections v le o files pid (LsOk ents) kind = Val []
+  /\ proc_log v le o files pid (LsOk ents) kind = [].
 Proof.
-  intros Hwf Hsafe Hp Hv Hk Hux.
-  unfold proc_net_connections. rewrite check_kind_good by exact Hk. cbn [obind].
-  unfold to_listing. rewrite Hv. unfold wf_kproc in Hp. rewrite get_proc_inodes_ok by exact Hp.
-  cbn [obind]. fold (sock_pairs p).
+  intros H Hk. unfold proc_net_connections, proc_net_connections_adds, proc_log.
+  rewrite check_kind_good by exact Hk. rewrite H. repeat split; reflexivity.
+Qed.
+
+Lemma holds_no_socket_pairs p : holds_no_socket p = true -> sock_pairs p = [].
+Proof.
+  unfold holds_no_socket, sock_pairs, sock_pairs_of. induction (p_fds p) as [|f r IH]; [reflexivity|].
+  cbn [forallb flat_map]. intros H. apply andb_true_iff in H as [Hf Hr]. rewrite IH by exact Hr.
+  unfold ent_pair. destruct (f_target f); [discriminate|reflexivity|reflexivity].
+Qed.
+Lemma pairs_nil_holds_none p : sock_pairs p = [] -> holds_no_socket p = true.
+Proof.
+  unfold holds_no_socket, sock_pairs, sock_pairs_of. induction (p_fds p) as [|f r IH]; [reflexivity|].
+  cbn [forallb flat_map]. unfold ent_pair at 1. destruct (f_target f); cbn [app]; try discriminate; exact IH.
+Qed.
+Corollary proc_no_sockets_kernel v le o files p kind :
+  wf_kproc p = true -> p_visible p = true -> holds_no_socket p = true -> In kind kinds ->
+  proc_net_connections v le o files (p_pid p) (to_listing p) kind = Val []
+  /\ proc_log v le o files (p_pid p) (to_listing p) kind = [].
+Proof.
+  intros Hp Hv Hn Hk. unfold to_listing. rewrite Hv.
+  assert (H : get_proc_inodes (p_pid p) (map to_ent (p_fds p)) = Val []).
+  { unfold wf_kproc in Hp. rewrite get_proc_inodes_ok by exact Hp. fold (sock_pairs p).
+    now rewrite holds_no_socket_pairs. }
+  destruct (proc_no_sockets v le o files (p_pid p) _ kind H Hk) as (_ & H2 & H3). now split.
+Qed.
+
+Theorem per_process v le o st p kind :
+  wf_state st = true -> files_text_safe le st = true -> wf_kproc p = true -> p_visible p = true ->
+  In kind kinds -> no_v6_failure o ->
+  (covers_unix kind = true -> v_exact v = true \/ no_lead_ws st = true) ->
+  exists adds, proc_net_connections_adds v le o (k_files le st) (p_pid p) (to_listing p) kind = Val adds
+               /\ Forall2 row_ok adds (spec_proc p kind (restrict6 o st))
+               /\ proc_net_connections v le o (k_files le st) (p_pid p) (to_listing p) kind = Val (as_set adds)
+               /\ proc_log v le o (k_files le st) (p_pid p) (to_listing p) kind = spec_proc_log p kind st.
+Proof.
+  intros Hwf Hsafe Hp Hv Hk Ho Hux. unfold spec_proc_log.
+  assert (HI : get_proc_inodes (p_pid p) (map to_ent (p_fds p)) = Val (sock_pairs p)).
+  { unfold wf_kproc in Hp. now rewrite get_proc_inodes_ok by exact Hp. }
+  unfold proc_net_connections, proc_net_connections_adds, proc_log.
+  rewrite check_kind_good by exact Hk. cbn [obind].
+  unfold to_listing. rewrite Hv, HI. cbn [obind].
   destruct (sock_pairs p) as [|kv d] eqn:Ed.
-  - exists []. split; [reflexivity|]. unfold spec_proc. rewrite spec_entries_nil; [constructor|].
+  - rewrite (pairs_nil_holds_none p Ed).
+    exists []. split; [reflexivity|]. split; [|split; reflexivity].
+    unfold spec_proc. rewrite spec_entries_nil; [constructor|].
     intros ino. unfold proc_owners. rewrite (holders_in_visible p ino Hv), Ed. reflexivity.
-  - rewrite <- Ed.
-    rewrite (retrieve_ok v le st kind _ (Some (p_pid p)) (lookup1_lk_ok _) Hwf Hsafe Hk Hux).
-    eexists. split; [reflexivity|].
-    unfold spec_proc, spec_entries, spec_entries2. rewrite (unix_entries_on _ kind _ Hk).
-    repeat apply Forall2_app; apply Forall2_on; intros Hb; try (now apply proc_inet_rows).
-    now apply proc_unix_rows.
+  - assert (Hn : holds_no_socket p = false).
+    { destruct (holds_no_socket p) eqn:E; [|reflexivity]. rewrite holds_no_socket_pairs in Ed by exact E. discriminate. }
+    rewrite Hn. rewrite <- Ed.
+    destruct (retrieve_ok v le o st (lookup1 (sock_pairs p)) (Some (p_pid p)) (lookup1_lk_ok _) Hwf Hsafe Ho kind Hk Hux)
+      as [HR HL].
+    rewrite HR. eexists. split; [reflexivity|]. split; [|split; [reflexivity|]].
+    + destruct (restrict6_parts o st) as (E1 & E2 & E3 & E4 & E5 & E6).
+      unfold spec_proc, spec_entries, spec_entries2. rewrite E1, E2, E3, E4, E5.
+      rewrite (unix_entries_on _ kind _ Hk).
+      repeat apply Forall2_app; apply Forall2_on; intros Hb; try (now apply proc_inet_rows).
+      now apply proc_unix_rows.
+    + exact HL.
 Qed.
 
 (* the current code (v_merge) reports the first holder in scan order *)
@@ -325,49 +532,80 @@ Proof.
     repeat split. now left.
 Qed.
 
-Theorem system_wide_first v le st kind :
+Theorem system_wide_first v le o st kind :
   v_merge v = true ->
-  wf_state st = true -> files_text_safe le st = true -> In kind kinds ->
+  wf_state st = true -> files_text_safe le st = true -> In kind kinds -> no_v6_failure o ->
   (covers_unix kind = true -> v_exact v = true \/ no_lead_ws st = true) ->
-  exists rows, net_connections v le (k_files le st) (to_procs (k_procs st)) kind = Val rows
-               /\ Forall2 row_ok rows (spec_sys_first kind st).
+  exists adds, net_connections_adds v le o (k_files le st) (to_procs (k_procs st)) kind = Val adds
+               /\ Forall2 row_ok adds (spec_sys_first kind (restrict6 o st)).
 Proof.
-  intros Hm Hwf Hsafe Hk Hux.
+  intros Hm Hwf Hsafe Hk Ho Hux.
   pose proof (wf_state_parts st Hwf) as (_ & _ & _ & _ & _ & _ & _ & WP).
-  unfold net_connections. rewrite check_kind_good by exact Hk. cbn [obind].
-  rewrite get_all_inodes_ok by exact WP. cbn [obind].
-  rewrite (retrieve_ok v le st kind _ None (lookup_v_lk_ok v _) Hwf Hsafe Hk Hux).
+  destruct (retrieve_ok v le o st (lookup_v v (dicts (k_procs st))) None (lookup_v_lk_ok v _) Hwf Hsafe Ho kind Hk Hux)
+    as [HR _].
+  unfold net_connections_adds. rewrite check_kind_good by exact Hk. cbn [obind].
+  rewrite get_all_inodes_ok by exact WP. cbn [obind]. rewrite HR.
   eexists. split; [reflexivity|].
-  unfold spec_sys_first, spec_entries2. rewrite (unix_entries_on _ kind _ Hk).
+  destruct (restrict6_parts o st) as (E1 & E2 & E3 & E4 & E5 & E6).
+  unfold spec_sys_first, spec_entries2. rewrite E1, E2, E3, E4, E5, E6. rewrite (unix_entries_on _ kind _ Hk).
   repeat apply Forall2_app; apply Forall2_on; intros Hb; try (now apply sys_inet_rows_first).
   apply sys_unix_rows. now left.
 Qed.
 
-(* the code as it is now: no exclusion *)
+(* the code as it is now on a host with working IPv6: no exclusion, the state itself *)
+Lemma restrict6_ok st : restrict6 ipv6_ok st = st.
+Proof. reflexivity. Qed.
+
 Corollary system_wide_current le st kind :
   wf_state st = true -> files_text_safe le st = true -> In kind kinds ->
-  exists rows, net_connections current le (k_files le st) (to_procs (k_procs st)) kind = Val rows
-               /\ Forall2 row_ok rows (spec_sys kind st).
+  exists adds, net_connections_adds current le ipv6_ok (k_files le st) (to_procs (k_procs st)) kind = Val adds
+               /\ Forall2 row_ok adds (spec_sys kind st)
+               /\ net_connections current le ipv6_ok (k_files le st) (to_procs (k_procs st)) kind = Val (as_set adds)
+               /\ net_log current le ipv6_ok (k_files le st) (to_procs (k_procs st)) kind = spec_log kind st.
 Proof.
-  intros Hwf Hsafe Hk. apply system_wide; try assumption.
+  intros Hwf Hsafe Hk.
+  apply (system_wide current le ipv6_ok st kind Hwf Hsafe Hk); [left; reflexivity|].
   intros _. split; left; reflexivity.
 Qed.
 Corollary system_wide_first_current le st kind :
   wf_state st = true -> files_text_safe le st = true -> In kind kinds ->
-  exists rows, net_connections current le (k_files le st) (to_procs (k_procs st)) kind = Val rows
-               /\ Forall2 row_ok rows (spec_sys_first kind st).
+  exists adds, net_connections_adds current le ipv6_ok (k_files le st) (to_procs (k_procs st)) kind = Val adds
+               /\ Forall2 row_ok adds (spec_sys_first kind st).
 Proof.
-  intros Hwf Hsafe Hk. apply system_wide_first; try assumption; [reflexivity|].
+  intros Hwf Hsafe Hk.
+  apply (system_wide_first current le ipv6_ok st kind eq_refl Hwf Hsafe Hk); [left; reflexivity|].
   intros _. left; reflexivity.
 Qed.
 Corollary per_process_current le st p kind :
   wf_state st = true -> files_text_safe le st = true -> wf_kproc p = true -> p_visible p = true ->
   In kind kinds ->
-  exists rows, proc_net_connections current le (k_files le st) (p_pid p) (to_listing p) kind = Val rows
-               /\ Forall2 row_ok rows (spec_proc p kind st).
+  exists adds, proc_net_connections_adds current le ipv6_ok (k_files le st) (p_pid p) (to_listing p) kind = Val adds
+               /\ Forall2 row_ok adds (spec_proc p kind st)
+               /\ proc_net_connections current le ipv6_ok (k_files le st) (p_pid p) (to_listing p) kind = Val (as_set adds)
+               /\ proc_log current le ipv6_ok (k_files le st) (p_pid p) (to_listing p) kind = spec_proc_log p kind st.
 Proof.
-  intros Hwf Hsafe Hp Hv Hk. apply per_process; try assumption.
+  intros Hwf Hsafe Hp Hv Hk.
+  apply (per_process current le ipv6_ok st p kind Hwf Hsafe Hp Hv Hk); [left; reflexivity|].
   intros _. left; reflexivity.
+Qed.
+
+(* a host without IPv6 (inet_ntop cannot format it and supports_ipv6() says so): the IPv4 and UNIX rows are
+   exactly those of a host with IPv6; of the IPv6 tables only the sockets with both ports 0 remain *)
+Corollary ipv6_unsupported le st kind :
+  let o := {| o_ntop6 := false; o_supported := false |} in
+  wf_state st = true -> files_text_safe le st = true -> In kind kinds ->
+  exists adds, net_connections_adds current le o (k_files le st) (to_procs (k_procs st)) kind = Val adds
+               /\ Forall2 row_ok adds (spec_sys kind (restrict6 o st))
+               /\ k_tcp4 (restrict6 o st) = k_tcp4 st /\ k_udp4 (restrict6 o st) = k_udp4 st
+               /\ k_unix (restrict6 o st) = k_unix st /\ k_procs (restrict6 o st) = k_procs st
+               /\ k_tcp6 (restrict6 o st) = option_map (filter ports_zero) (k_tcp6 st)
+               /\ k_udp6 (restrict6 o st) = option_map (filter ports_zero) (k_udp6 st).
+Proof.
+  intros o Hwf Hsafe Hk.
+  destruct (system_wide current le o st kind Hwf Hsafe Hk) as (adds & HA & HF & _).
+  - right. reflexivity.
+  - intros _. split; left; reflexivity.
+  - exists adds. repeat split; assumption || reflexivity.
 Qed.
 
 (* ------------------------------------------------------------ witnesses *)
@@ -407,7 +645,7 @@ Proof. vm_compute. repeat split; reflexivity. Qed.
 Lemma unix_shared_refuted :
   exists st, wf_state st = true /\ files_text_safe true st = true /\ no_lead_ws st = true
              /\ unix_unshared st = false
-             /\ exists rows, net_connections before_repairs true (k_files true st) (to_procs (k_procs st)) (bs "unix") = Val rows
+             /\ exists rows, net_connections_adds before_repairs true ipv6_ok (k_files true st) (to_procs (k_procs st)) (bs "unix") = Val rows
                              /\ length (spec_sys (bs "unix") st) = 4%nat /\ length rows = 3%nat.
 Proof.
   exists (ex_state true (bs "/tmp/a b")). vm_compute. repeat split; try reflexivity.
@@ -418,7 +656,7 @@ Qed.
 Lemma unix_lead_ws_refuted :
   exists st, wf_state st = true /\ files_text_safe true st = true /\ unix_unshared st = true
              /\ no_lead_ws st = false
-             /\ exists rows, net_connections before_repairs true (k_files true st) (to_procs (k_procs st)) (bs "unix") = Val rows
+             /\ exists rows, net_connections_adds before_repairs true ipv6_ok (k_files true st) (to_procs (k_procs st)) (bs "unix") = Val rows
                              /\ map e_laddr (spec_sys (bs "unix") st) = [APath (bs " lead"); APath (bs "@abstract name")]
                              /\ map r_laddr rows = [APath (bs "lead"); APath (bs "@abstract name")].
 Proof.
@@ -429,7 +667,7 @@ Qed.
 (* the defect repaired by b838598 (the code before it returned '' for a path with a blank; that code is
    not modelled): the path is returned whole *)
 Lemma unix_path_with_blank :
-  exists rows, net_connections current true (k_files true (ex_state false (bs "/tmp/a b")))
+  exists rows, net_connections_adds current true ipv6_ok (k_files true (ex_state false (bs "/tmp/a b")))
                                (to_procs (k_procs (ex_state false (bs "/tmp/a b")))) (bs "unix") = Val rows
                /\ map r_laddr rows = [APath (bs "/tmp/a b"); APath (bs "@abstract name")].
 Proof. eexists. vm_compute. split; reflexivity. Qed.
@@ -437,10 +675,10 @@ Proof. eexists. vm_compute. split; reflexivity. Qed.
 (* the code as it is now gives the demanded answer on the two witnesses *)
 Lemma repaired_witnesses :
   let v := current in
-  (exists rows, net_connections v true (k_files true (ex_state true (bs "/tmp/a b")))
+  (exists rows, net_connections_adds v true ipv6_ok (k_files true (ex_state true (bs "/tmp/a b")))
                                 (to_procs (k_procs (ex_state true (bs "/tmp/a b")))) (bs "unix") = Val rows
                 /\ length rows = 4%nat)
-  /\ (exists rows, net_connections v true (k_files true (ex_state false (bs " lead")))
+  /\ (exists rows, net_connections_adds v true ipv6_ok (k_files true (ex_state false (bs " lead")))
                                    (to_procs (k_procs (ex_state false (bs " lead")))) (bs "unix") = Val rows
                    /\ map r_laddr rows = [APath (bs " lead"); APath (bs "@abstract name")]).
 Proof. split; eexists; vm_compute; split; reflexivity. Qed.
@@ -451,4 +689,25 @@ Example full_domain_example :
   let st := ex_state true (bs " lead") in
   wf_state st = true /\ files_text_safe true st = true /\ unix_unshared st = false /\ no_lead_ws st = false
   /\ length (spec_sys (bs "all") st) = 6%nat.
+Proof. vm_compute. repeat split; reflexivity. Qed.
+
+(* a host without IPv6: of two IPv6 sockets only the one with both ports 0 is reported; IPv4 is untouched *)
+Definition ex_v6_listen0 : isock :=
+  Build_isock 2 (fun _ => O) (bs "8:") (IP6 (q4 0 0 0 0) (q4 0 0 0 0) (q4 0 0 0 0) (q4 0 0 0 0)) 0
+              (IP6 (q4 0 0 0 0) (q4 0 0 0 0) (q4 0 0 0 0) (q4 0 0 0 0)) 0 7 mid0 (bs "502") [].
+Example ipv6_unsupported_example :
+  let o := {| o_ntop6 := false; o_supported := false |} in
+  let st := Build_kstate [ex_tcp] None [] (Some [ex_udp6; ex_v6_listen0]) [] (ex_procs false) in
+  wf_state st = true /\ files_text_safe true st = true
+  /\ exists adds, net_connections_adds current true o (k_files true st) (to_procs (k_procs st)) (bs "inet") = Val adds
+                  /\ map r_family adds = [2; 10] /\ map r_laddr adds = [AInet [127; 0; 0; 1] 22; ANone]
+                  /\ length (spec_sys (bs "inet") st) = 3%nat.
+Proof. vm_compute. repeat split; try reflexivity. eexists. repeat split; reflexivity. Qed.
+
+(* junk lines in /proc/net/unix: hypotheses of process_unix_items_ok hold for a file with a record, a token-only
+   line and an empty line *)
+Example unix_items_example :
+  let items := [USock (ex_unix (bs "600") (bs "/tmp/a b") UStream);
+                UJunk (bs "000000000000000000000000000000000000000000000000000000"); UJunk []] in
+  forallb uitem_ok items = true /\ text_safe (k_ufile_items items) = true /\ length (socks_of items) = 1%nat.
 Proof. vm_compute. repeat split; reflexivity. Qed.
